@@ -11,6 +11,7 @@ CONSTANTS
   SkipLock = "none"
   TxNoLock = FALSE
   WalGuard = TRUE
+  WalOwnerTest = FALSE
   Exclude = {}
   Gated = TRUE
   EmitEdges = TRUE
